@@ -352,6 +352,19 @@ pub fn skip_box<S: Seek>(seeker: &mut S, size: u64) -> Result<()> {
     Ok(())
 }
 
+/// A box nested in a container must at least hold its own header.  Container loops
+/// advance by the declared size of each child, so a child declaring less (in particular
+/// 0, which only means "extends to the end of the file" for the last top-level box)
+/// would make them re-read the same header forever.
+pub(crate) fn check_child_size(size: u64) -> Result<()> {
+    if size < HEADER_SIZE {
+        return Err(Error::InvalidData(
+            "container holds a box with a size smaller than its header",
+        ));
+    }
+    Ok(())
+}
+
 pub fn write_zeros<W: Write>(writer: &mut W, size: u64) -> Result<()> {
     for _ in 0..size {
         writer.write_u8(0)?;
